@@ -814,4 +814,12 @@ Section Proofs.
   Proof.
     intros U Ue D AG. apply destructure_sound; auto. apply (proj1 distinct_alias_ok), D.
   Qed.
+
+  (** * fn parameters and loop bindings: the parameter / loop variable (the :as name or a
+      temporary) is bound to the argument -- by the call, by loop*, or by recur -- and the
+      let* placed in the body then binds what the pattern binds on that value. *)
+  Theorem param_block_sound p n d n' em es v :
+    mkdef p n = (d, n') -> user_pat p = true -> alias_ok p = true -> agree em es ->
+    sim (eval_let (dbind_ns d) ((dname d, v) :: em)) (bind p v es).
+  Proof. intros; eapply (proj1 dbind_sim); eauto. Qed.
 End Proofs.
